@@ -9,6 +9,22 @@ use crate::parsework::{Backend, Job};
 use crate::prng::{self, Rng};
 use crate::sched::{SchedSpec, Strategy};
 use serde_json::{json, Value};
+use std::cell::Cell;
+use std::time::{Duration, Instant};
+
+thread_local! {
+    static DEADLINE: Cell<Option<Instant>> = const { Cell::new(None) };
+}
+
+/// Minimisation is best effort under a wall-clock cap: when the cap is reached the smallest
+/// failing case found so far is reported (it is still replay-verified by the caller).
+pub fn set_time_cap(secs: u64) {
+    DEADLINE.with(|d| d.set(Some(Instant::now() + Duration::from_secs(secs))));
+}
+
+fn out_of_time() -> bool {
+    DEADLINE.with(|d| d.get().map(|t| Instant::now() > t).unwrap_or(false))
+}
 
 // ---------------------------------------------------------------------------------------------
 // C17
@@ -47,6 +63,9 @@ fn try17(w: &c17::Workload, spec: SchedSpec, class: &str, sig: &str) -> Option<F
 
 /// Candidate workload: first the current decision list (replayed leniently), then fresh seeds.
 fn try17_any(w: &c17::Workload, decisions: &[u32], class: &str, sig: &str, tries: u64, salt: u64) -> Option<Fail17> {
+    if out_of_time() {
+        return None;
+    }
     if let Some(f) = try17(
         w,
         SchedSpec::Replay {
@@ -58,6 +77,9 @@ fn try17_any(w: &c17::Workload, decisions: &[u32], class: &str, sig: &str, tries
         return Some(f);
     }
     for t in 0..tries {
+        if out_of_time() {
+            return None;
+        }
         let seed = prng::mix(salt ^ t.wrapping_mul(0x9E37_79B9));
         let strategy = match t % 4 {
             0 => Strategy::Uniform,
@@ -195,7 +217,7 @@ pub fn minimise17(first: Fail17, effort: u64) -> Fail17 {
         improved = false;
         guard += 1;
         let mut i = 1;
-        while i < d.len() {
+        while i < d.len() && !out_of_time() {
             if d[i] != d[i - 1] {
                 let mut d2 = d.clone();
                 // extend the previous task's time slice over this decision
@@ -257,6 +279,13 @@ pub struct FailJob {
     pub k: Option<usize>,
 }
 
+fn eval_job_capped(prop: &str, job: &Job) -> Option<(String, String, Option<usize>)> {
+    if out_of_time() {
+        return None;
+    }
+    eval_job(prop, job)
+}
+
 fn eval_job(prop: &str, job: &Job) -> Option<(String, String, Option<usize>)> {
     let mut rng = Rng::new(1);
     if prop == "C12" {
@@ -300,7 +329,7 @@ pub fn minimise_job(prop: &str, job: &Job, ast: Option<(gen::Grammar, usize)>) -
             c2.remove(ci);
             let mut j = best.job.clone();
             j.input = c2.into_iter().collect();
-            match eval_job(prop, &j) {
+            match eval_job_capped(prop, &j) {
                 Some((c, d, k)) if c == class => {
                     best.job = j;
                     best.detail = d;
@@ -328,7 +357,7 @@ pub fn minimise_job(prop: &str, job: &Job, ast: Option<(gen::Grammar, usize)>) -
                     },
                     input: best.job.input.clone(),
                 };
-                if let Some((c, d, k)) = eval_job(prop, &j) {
+                if let Some((c, d, k)) = eval_job_capped(prop, &j) {
                     if c == class {
                         best.job = j;
                         best.detail = d;
@@ -392,6 +421,9 @@ fn try_cfg(prop: &str, w: &cfgworld::CfgWorkload, spec: SchedSpec, class: &str) 
 }
 
 fn try_cfg_any(prop: &str, w: &cfgworld::CfgWorkload, d: &[u32], class: &str, tries: u64, salt: u64) -> Option<FailCfg> {
+    if out_of_time() {
+        return None;
+    }
     if let Some(f) = try_cfg(prop, w, SchedSpec::Replay { decisions: d.to_vec() }, class) {
         return Some(f);
     }
@@ -493,7 +525,7 @@ pub fn minimise_cfg(first: FailCfg, effort: u64) -> FailCfg {
     // schedule
     let mut d = best.decisions.clone();
     let mut i = 1;
-    while i < d.len() {
+    while i < d.len() && !out_of_time() {
         if d[i] != d[i - 1] {
             let mut d2 = d.clone();
             d2[i] = d[i - 1];
